@@ -255,3 +255,76 @@ Proof.
   intros [_ H]. specialize (H "q" "q_p" 0 ltac:(vm_compute; auto) ltac:(vm_compute; auto) ltac:(vm_compute; reflexivity)).
   discriminate.
 Qed.
+
+(* ===== t18 (/repo 18b2e85): t6 with a second output declaration that occurs on NEITHER side
+         specification  q :- in.  out :- q.     program  out :- not in.
+         input: in/0.  output: out/0.  output: unused/2.
+         `unused/2` gets no completed definition, the problems are those of t6, and M18 = M6 plus
+         every atom unused(_, _) refutes forward_problem_0 like M6 does: the extent of an unused
+         output predicate is immaterial.  M18 is an external stable model of the specification
+         program on the vocabulary of the task (ext_voc leaves unused/2 out) - obtained THROUGH
+         C02_countermodel_sound - and it is NOT one when unused/2 is kept in the vocabulary
+         (ext_stable_public): the reason why ext_voc follows the code. ===== *)
+From Anthem Require Import Proofs.C02Unused.
+Definition t18 : ext_task :=
+  mkext (inl L6) R6 [UGInput (mkpred "in" 0); UGOutput (mkpred "out" 0); UGOutput (mkpred "unused" 2)] []
+        DIndependent DUniversal ReprTauStar false true false.
+Definition M18 : pint := fun p d => M6 p d \/ (p = "unused" /\ List.length d = 2).
+Definition pbs18 : list problem :=
+  match external_decompose_full full_fuel t18 with XOk _ pbs => pbs | _ => [] end.
+Definition lft18 := match tlf t18 L6 with Some l => l | None => [] end.
+Definition rgt18 := match trf t18 with Some l => l | None => [] end.
+
+Lemma t18_accepted : external_decompose_full full_fuel t18 = XOk [] pbs18. Proof. vm_compute. reflexivity. Qed.
+(* the unused declaration changes nothing in what anthem emits *)
+Lemma t18_same_problems : pbs18 = pbs6 /\ lft18 = lft6 /\ rgt18 = rgt6.
+Proof. repeat split; vm_compute; reflexivity. Qed.
+Lemma t18_left : tlf t18 L6 = Some lft18. Proof. vm_compute. reflexivity. Qed.
+Lemma t18_right : trf t18 = Some rgt18. Proof. vm_compute. reflexivity. Qed.
+Lemma t18_no_clash :
+  forall vt, task_validated tau_star_total completion (simp_classic_total full_fuel) t18 = Some vt -> validated_no_clash vt.
+Proof. apply task_no_clashb_spec. vm_compute. reflexivity. Qed.
+Lemma t18_unused :
+  In (mkpred "unused" 2) (ug_output_predicates (et_user_guide t18)) /\
+  ~ In (mkpred "unused" 2) (task_occurring_predicates t18) /\
+  ~ In (mkpred "unused" 2) (ext_voc t18 L6) /\ ~ In (mkpred "unused" 2) (ext_voc t18 R6) /\
+  In (mkpred "unused" 2) (ext_voc_public t18 L6).
+Proof.
+  split; [vm_compute; auto|]. split; [|split; [|split]]; vm_compute; intuition discriminate.
+Qed.
+(* no formula of either side mentions unused/2 (on t17 the program side has out2 <-> #false) *)
+Lemma t18_no_definition :
+  forallb (fun a => negb (memb pred_dec (mkpred "unused" 2) (predicates (an_formula a)))) (lft18 ++ rgt18) = true.
+Proof. vm_compute. reflexivity. Qed.
+Lemma t18_refuted FI : refutes_some FI M18 pbs18.
+Proof.
+  rewrite (proj1 t18_same_problems).
+  remember pbs6 as l eqn:E. vm_compute in E. subst l. eexists. split; [left; reflexivity|]. split.
+  - intros a Ha. cbn in Ha. destruct Ha as [<-|[<-|[]]]; intros e; cbn; unfold M18, M6, Mof; cbn; intuition.
+  - eexists. split; [cbn; left; reflexivity|]. intros H. specialize (H (mkenv (fun _ => VInf) (fun _ => 0%Z) (fun _ => ""))).
+    cbn in H. unfold M18, M6, Mof in H. cbn in H. intuition discriminate.
+Qed.
+Lemma t18_not_empty : ~ unused_outputs_empty t18 M18.
+Proof.
+  intros H. apply (H (mkpred "unused" 2) (proj1 t18_unused) (proj1 (proj2 t18_unused)) [VInf; VInf] eq_refl).
+  right. split; reflexivity.
+Qed.
+(* through C02_countermodel_sound: the refutation yields the behavioural difference, M18 itself
+   being the external stable model *)
+Lemma t18_behaviour_rhs FI :
+  (dir_forward (et_direction t18) = true /\
+   ext_stable_full t18 FI M18 L6 /\
+   ~ exists N, pub_agree t18 N (reindex (task_mapping t18) M18) /\ ext_stable_full t18 FI N (et_program t18)) \/
+  (dir_backward (et_direction t18) = true /\
+   ext_stable_full t18 FI (reindex (task_mapping t18) M18) (et_program t18) /\
+   ~ exists N, pub_agree t18 N M18 /\ ext_stable_full t18 FI N L6).
+Proof.
+  exact (C02_countermodel_proof full_fuel t18 L6 [] pbs18 lft18 rgt18 eq_refl eq_refl t18_accepted
+           (proj1 t6_tight) (proj2 t6_tight) t18_left t18_right t18_no_clash FI M18 (t18_refuted FI)).
+Qed.
+(* with unused/2 kept in the vocabulary M18 is an external stable model of neither program *)
+Lemma t18_public_not_stable FI P :
+  incl (program_preds P) (task_occurring_predicates t18) -> ~ ext_stable_public t18 FI M18 P.
+Proof.
+  intros HP Hst. apply t18_not_empty. apply (ext_stable_public_unused t18 FI M18 P); [reflexivity|exact HP|exact Hst].
+Qed.
